@@ -51,7 +51,19 @@ def _pipeline(ctx, hw, b, transpile):
     conn, ex = make_pipeline(ctx, "Alice", epr_sockets=[sock], **kw)
     if ctx.symbolic:
         _install(ctx, ex, False)
-    state = {"next_phys": 100, "faults": []}
+    state = {"next_phys": 100, "faults": [], "electron": []}
+
+    class EvLog(list):
+        """processor event log that checks, when an event is recorded, that every virtual qubit it addresses is allocated
+        (what any real back end does when it translates the address: Executor._get_position raises otherwise)"""
+        def append(self, e):
+            list.append(self, e)
+            um = ex._qubit_unit_modules[0]
+            addrs = {"single": e[2:3], "two": e[2:4], "rot": e[2:3], "crot": e[2:4], "meas": e[1:2]}.get(e[0], ())
+            for a in addrs:
+                if isinstance(a, int) and not (0 <= a < len(um) and um[a] is not None):
+                    (state["electron"] if (a == 0 and transpile) else state["faults"]).append(f"unallocated-virtual-qubit: {e[0]} {e[1] if e[0] != 'meas' else ''} addresses virtual qubit {a}, allocated: {[v for v, p in enumerate(um) if p is not None]}")
+    ex.events = EvLog(ex.events)
 
     def run(sub):
         def on_wait(k):
@@ -208,6 +220,7 @@ def build():
                     if out[0] != "ret":
                         return
                     ctx.check("no-allocation-fault-on-the-controller", not state["faults"])
+                    ctx.check("NV-transpiled code uses virtual qubit 0 (the electron) only while it is allocated", not state["electron"])
                     ids = _sdk_ids(conn)
                     ctx.check("active-handles-have-distinct-ids", len(set(ids)) == len(ids))
                     ctx.check("active-handles == allocated-virtual-qubits after the flush", sorted(ids) == sorted(_controller_ids(ex)))
